@@ -49,7 +49,7 @@ def snapshot_fn(solver_obj):
 
 def run_lp(spec, opts, workdir, rng, inject=True, noise=True, second_side=None,
            time_limit=None, faults=None, clock=None, getters=('short', 'long', 'debug'),
-           text=None, argv=None, decoy_argv=None, cbc_options=None):
+           text=None, argv=None, decoy_argv=None, cbc_options=None, solve_kwargs=None, cwd=None):
     """One monitored execution of the real Solver.  Never raises."""
     import sys as _sys
     from matchingproblems.solver import Solver
@@ -94,13 +94,18 @@ def run_lp(spec, opts, workdir, rng, inject=True, noise=True, second_side=None,
                 decoy = Solver(['-f', path] + list(decoy_argv))
             except BaseException:
                 decoy = None
+        old_cwd = os.getcwd()
         try:
-            if time_limit is None:
-                s.solve()
-            else:
-                s.solve(timeLimit=time_limit)
+            if cwd is not None:
+                os.chdir(cwd)          # solve(write=True) writes model.lp into the current directory
+            kw = dict(solve_kwargs or {})
+            if time_limit is not None:
+                kw['timeLimit'] = time_limit
+            s.solve(**kw)
         except Exception as e:
-            ex['exc'] = dict(exc_info(e), phase='solve')
+            ex['exc'] = dict(exc_info(e), phase='solve', is_oserror=isinstance(e, OSError))
+        finally:
+            os.chdir(old_cwd)
         if decoy is not None:
             TAP.enabled = False
             try:
